@@ -55,6 +55,14 @@ Example ex_managed_outcomes :
   locked (fst (m_managed P0 true body_ok PanicV w0)) = false.
 Proof. repeat split. Qed.
 
+(* fn ends its goroutine (runtime.Goexit) after two successful writes: aborted, lock free, call never returns *)
+Example ex_goexit :
+  snd (m_managed P0 true body_ok Goexit w0) = [OW true; OHandle 1; OR true; OW true; OFinGoexit] /\
+  pub (fst (m_managed P0 true body_ok Goexit w0)) = [7] /\
+  locked (fst (m_managed P0 true body_ok Goexit w0)) = false /\
+  pub (fst (m_managed P0 false body_ok Goexit w0)) = [7].
+Proof. repeat split. Qed.
+
 Example ex_settled_and_readonly :
   let w := fst (m_commit P0 0 (fst (m_begin P0 true w0))) in
   nth_error (txns w) 0 = Some (mkTxn true None) /\
